@@ -16,9 +16,9 @@ from ..common import cps, pmap, judge, import_hl7apy, exc_name
 def gen_strings(ctx, mode, rich, maxstr):
     cfg = os.path.join(tlc.SPEC_DIR, "_gen_LexMC_%s.cfg" % mode)
     with open(cfg, "w") as f:
-        f.write("CONSTANTS\n Mode = \"%s\"\n MaxStr = %d\n Rich = %s\nSPECIFICATION Spec\nCHECK_DEADLOCK FALSE\n"
+        f.write("CONSTANTS\n Mode = \"%s\"\n MaxStr = %d\n Rich = %s\n EndAfterJunk = %s\nSPECIFICATION Spec\nCHECK_DEADLOCK FALSE\n"
                 "INVARIANT DateIsDateTime\nINVARIANT OffsetIsOptional\nINVARIANT TimeExtendsDate\nINVARIANT PlainIsValid\n"
-                "INVARIANT NumEqReflexive\nINVARIANT UnspecifiedIsNotValid\n" % (mode, maxstr, "TRUE" if rich else "FALSE"))
+                "INVARIANT NumEqReflexive\nINVARIANT UnspecifiedIsNotValid\n" % (mode, maxstr, "TRUE" if rich else "FALSE", "TRUE" if rich else "FALSE"))
     try:
         r, states = tlc.dump_states("LexicalMC", os.path.basename(cfg), workers=16, timeout=2400)
     finally:
@@ -155,9 +155,10 @@ def run(ctx):
     nums = gen_strings(ctx, "num", False, 4 if quick else 5)
     times = sorted(set(times + EXTRA_TIME))
     nums = sorted(set(nums + EXTRA_NUM))
-    if quick and len(times) > 40000:
+    cap = 40000 if quick else 250000
+    if len(times) > cap:
         keep = set(EXTRA_TIME)
-        times = sorted(set(rnd.sample(times, 40000)) | keep)
+        times = sorted(set(rnd.sample(times, cap)) | keep)
     ctx.extra["time_strings"] = len(times)
     ctx.extra["numeric_strings"] = len(nums)
     import_hl7apy()
